@@ -5,7 +5,7 @@ from props import Prop, register, mk, mutate, budget
 import tgen, refcbor, forms
 from tgen import T, BYTE_TYPES, TAGGED, TYPED_TYPES, INTS, WIDE, TEXTS
 from forms import vsx, parse, render, canon_nan
-from props_streams import dec_ops, head_variants, int_encodings, C02, lenbytes, NONCANON_PH
+from props_streams import dec_ops, head_variants, int_encodings, C02, lenbytes, NONCANON_PH, nestG, NEST_PATTERNS
 
 # ===================================================================== C06
 @register
@@ -104,6 +104,11 @@ class C07(Prop):
                         ops.append(mk('chain Value b' + (bytes([tag]) + enc).hex(), k='bignum'))
                         ops.append(mk('chain Header b' + (b'\xa1\x18\x63' + bytes([tag]) + enc).hex(), k='bignum'))
                         ops.append(mk('chain CoseKey b' + (b'\xa2\x01\x04\x20' + bytes([tag]) + enc).hex(), k='bignum'))
+        # nesting of counter signatures around the crate's budget, every form
+        for pat in NEST_PATTERNS:
+            for k in (1, 2, 3, 15, 16, 17, 18, 32, 33):
+                ops.append(mk('chain Header b' + nestG(k, pat).hex(), k='nestG'))
+                ops.append(mk('chain CoseSign1 b' + (b'\x84' + refcbor.head(2, len(nestG(k, pat))) + nestG(k, pat) + b'\xa0\xf6\x40').hex(), k='nestG'))
         # floats
         for fb in ('f90000', 'f97e00', 'f97c01', 'fa7f800001', 'fa7fc00000', 'fb7ff0000000000001', 'fb3ff8000000000000', 'fb3fb999999999999a', 'f93c00', 'fa47c35000', 'fb7ff8000000000001', 'f98001', 'fa00000001', 'fb0000000000000001'):
             ops.append(mk('chain Value b' + fb, k='float'))
@@ -200,6 +205,9 @@ class C08(Prop):
         for _ in range(budget(tier, 3, 40)):
             ops += hdr_rule_stream(g, r, 10000, wrap)
         ops += dec_ops(g, r, budget(tier, 5000, 100000), types=['Header', 'ProtectedHeader', 'Header', 'CoseSignature'], mut=0.05)
+        for pat in NEST_PATTERNS:
+            for k in (1, 2, 15, 16, 17, 18, 33):
+                ops.append(mk('dec Header b' + nestG(k, pat).hex(), k='nestG'))
         # encoding independence: same header value in two encodings must give the same result
         for _ in range(budget(tier, 800, 10000)):
             v = g.header()
